@@ -39,6 +39,7 @@ type c13Case struct {
 	// groups are consecutive sub-slices of one array (each with capacity up to the end of the array), likewise all
 	// conditional entries and all condition lists. Writing "behind the end" of one slice then changes a neighbour.
 	Spare  bool   `json:"spare,omitempty"`
+	OpCase uint64 `json:"op_case,omitempty"` // operation names spelled in other letter cases (seed of the spelling)
 	Mutate string `json:"mutate,omitempty"` // history kind: modify the value in place after the first compilations (default / group-action / drop-group)
 }
 
@@ -245,6 +246,9 @@ func drawC13(t *rapid.T) c13Case {
 	if rapid.IntRange(0, 4).Draw(t, "invalidOther") == 0 {
 		c.Others = append(c.Others, spec.Policy{Arch: archName, Default: 0x7fff0000, Groups: []spec.Group{{Action: 0, Names: []string{"read", "read", "nope"}}}})
 	}
+	if rapid.IntRange(0, 5).Draw(t, "opCase") == 0 {
+		c.OpCase = rapid.Uint64Range(1, 1<<40).Draw(t, "opCaseSeed")
+	}
 	return c
 }
 
@@ -252,6 +256,9 @@ func checkC13History(raw json.RawMessage) (ev.Result, error) {
 	var c c13Case
 	if err := json.Unmarshal(raw, &c); err != nil {
 		return ev.Result{}, ev.Inconclusivef("bad case: %v", err)
+	}
+	if c.OpCase != 0 {
+		c.Policy = *mangleOps(&c.Policy, c.OpCase)
 	}
 	sp := c.Policy.ToSeccomp()
 	if c.Spare {
@@ -364,6 +371,9 @@ func checkC13History(raw json.RawMessage) (ev.Result, error) {
 	res := ev.Result{Classes: []string{"history"}}
 	if c.Spare {
 		res.Classes = append(res.Classes, "caller-slices-share-one-backing-array")
+	}
+	if c.OpCase != 0 {
+		res.Classes = append(res.Classes, "operation-names-in-other-letter-case")
 	}
 	if ferr != nil {
 		res.Classes = append(res.Classes, "rejected-by-compiler")
@@ -578,7 +588,11 @@ type c13ProcCase struct {
 }
 
 func runDigest(corpusPath string) (map[string]string, error) {
-	bin, err := kchild.Bin("digest")
+	return runDigestOf("digest", corpusPath)
+}
+
+func runDigestOf(helper, corpusPath string) (map[string]string, error) {
+	bin, err := kchild.Bin(helper)
 	if err != nil {
 		return nil, err
 	}
@@ -675,18 +689,29 @@ func checkC13TextProcesses(raw json.RawMessage) (ev.Result, error) {
 		return ev.Result{}, ev.Inconclusivef("bad case: %v", err)
 	}
 	first := ""
+	classes := []string{"text-forms-across-processes"}
 	for i := 0; i < c.Processes; i++ {
-		m, err := runDigest("")
+		// every fourth process is a 32-bit build of the same source (where there is one)
+		helper := "digest"
+		if i%4 == 1 {
+			if _, err := kchild.Bin("digest_386"); err == nil {
+				helper = "digest_386"
+				if len(classes) == 1 {
+					classes = append(classes, "text-forms-in-a-32-bit-process")
+				}
+			}
+		}
+		m, err := runDigestOf(helper, "")
 		if err != nil {
 			return ev.Result{}, ev.Inconclusivef("%v", err)
 		}
 		if i == 0 {
 			first = m["texts"]
 		} else if m["texts"] != first {
-			return ev.Result{}, fmt.Errorf("process %d of %d prints a different text form for some action or filter-flag value than process 1 (digest over FilterFlag 0..63 and all actions)", i+1, c.Processes)
+			return ev.Result{}, fmt.Errorf("process %d of %d (%s) prints a different text form for some action or filter-flag value than process 1 (digest over FilterFlag 0..63 and named and unnamed action values up to 0xffffffff)", i+1, c.Processes, helper)
 		}
 	}
-	return ev.Result{Classes: []string{"text-forms-across-processes"}, NonTrivial: true, Sub: c.Processes}, nil
+	return ev.Result{Classes: classes, NonTrivial: true, Sub: c.Processes}, nil
 }
 
 // ---- the first use of the library by a process happens in several goroutines at once (race build) ----
